@@ -710,4 +710,367 @@ theorem eff_linkColl {s s' : State K} (hwf : WF s) {ms : List Nat} (hnd : ms.Nod
       exact ⟨_, h4, g1, by simp⟩
   · exact ⟨_, hnew, by rw [← hc], by rw [← hc], by rw [← hc], rfl⟩
 
+/-! ### composite constructions -/
+
+/-- the last object of `s'` is new and, if it is a collection, it is linked to its members -/
+def ResultOK (s s' : State K) : Prop :=
+  s.objs.length < s'.objs.length ∧
+    ∀ oc : Obj, s'.objs[lastId s']? = some oc → oc.cls = .coll → Linked s' (lastId s')
+
+theorem mem_range'_ge {a n i : Nat} (h : i ∈ List.range' a n) : a ≤ i := by
+  rw [List.mem_range'_1] at h; exact h.1
+
+/-- `[make(f) for f in fields]` followed by `FieldCollection(those, copy_fields=False)` -/
+theorem eff_mapEach_link {s s' : State K} (hwf : WF s)
+    (mk : Store K → Obj → List (Option K) × DType) (os : List Obj) {g : Nat} {dt : Option DType}
+    (h : linkColl (mapEach mk s os).1 (mapEach mk s os).2 g dt = .ok s') :
+    Eff s s' (fun _ _ => False) (fun _ => False) False ∧ ResultOK s s' := by
+  obtain ⟨e1, h2, h3⟩ := eff_mapEach mk os s hwf
+  have hnd : (mapEach mk s os).2.Nodup := by rw [h2]; exact List.nodup_range'
+  obtain ⟨e2, l2, lk, oc, hoc, _⟩ := eff_linkColl e1.wf hnd h
+  refine ⟨?_, ?_, ?_⟩
+  · refine (Eff.trans hwf e1 e2).mono (fun _ _ _ h => h.elim id id) ?_ (fun h => h.elim id id)
+    intro i hi hm
+    rcases hm with f | hm
+    · exact f
+    · rw [h2] at hm; have := mem_range'_ge hm; omega
+  · omega
+  · intro oc' hoc' _
+    have : lastId s' = (mapEach mk s os).1.objs.length := by unfold lastId; omega
+    rw [this]; exact lk
+
+theorem eff_mkColl {s s' : State K} (hwf : WF s) {hs : List Nat} {cp : Bool} {dt : Option DType}
+    (h : mkColl s hs cp dt = .ok s') :
+    Eff s s' (fun _ _ => False) (fun i => cp = false ∧ i ∈ hs) False ∧ ResultOK s s' := by
+  unfold mkColl at h
+  split at h
+  · cases h
+  · cases h
+  · rename_i hd tl os hget
+    simp only at h
+    split at h
+    · cases h
+    split at h
+    · cases h
+    split at h
+    · cases h
+    split at h
+    · -- the fields are copied first
+      obtain ⟨e, r⟩ := eff_mapEach_link hwf mkCopy os h
+      exact ⟨e.mono (fun _ _ _ f => f) (fun _ _ f => f.elim) id, r⟩
+    · rename_i hcp
+      have hcp' : cp = false ∧ (hd :: tl).Nodup := by
+        simp only [Bool.or_eq_true, Bool.not_eq_true', decide_eq_false_iff_not, not_or,
+          Bool.not_eq_true, Decidable.not_not] at hcp
+        exact hcp
+      obtain ⟨e2, l2, lk, _⟩ := eff_linkColl hwf hcp'.2 h
+      refine ⟨e2.mono (fun _ _ _ f => f) (fun i _ hm => ⟨hcp'.1, hm⟩) id, by omega, ?_⟩
+      intro oc' _ _
+      have : lastId s' = s.objs.length := by unfold lastId; omega
+      rw [this]; exact lk
+
+theorem eff_copyAny {s s' : State K} (hwf : WF s) {o : Obj} {dt : Option DType}
+    (h : copyAny s o dt = .ok s') :
+    Eff s s' (fun _ _ => False) (fun _ => False) False ∧ ResultOK s s' ∧
+      (o.cls ≠ .coll → ∃ d, s' = copyField s o d) := by
+  unfold copyAny at h
+  have field : ∀ d, s' = copyField s o d → o.cls ≠ .coll →
+      Eff s s' (fun _ _ => False) (fun _ => False) False ∧ ResultOK s s' ∧
+        (o.cls ≠ .coll → ∃ d, s' = copyField s o d) := by
+    intro d hs' hc
+    subst hs'
+    refine ⟨eff_allocObj hwf _ _ _, ⟨by simp [copyField, allocObj_length], ?_⟩, fun _ => ⟨d, rfl⟩⟩
+    intro oc hoc hcls
+    have : lastId (copyField s o d) = s.objs.length := by
+      simp [lastId, copyField, allocObj_length]
+    rw [this, copyField, allocObj_new] at hoc
+    cases hoc
+    exact absurd hcls hc
+  split at h
+  · cases h
+  · unfold copyColl at h
+    split at h
+    · cases h
+    · obtain ⟨e, r⟩ := eff_mapEach_link hwf mkCopy _ h
+      exact ⟨e, r, fun hc => absurd (by assumption) hc⟩
+  · rename_i h1 h2
+    cases h
+    exact field _ rfl (fun hc => h2 hc)
+
+/-- writing through the (fresh) result of a construction does not touch old memory -/
+theorem eff_write_result {s s1 : State K} (hwf : WF s)
+    (e1 : Eff s s1 (fun _ _ => False) (fun _ => False) False) (r1 : ResultOK s s1) {r : Obj}
+    (hr : getObj s1 (lastId s1) = .ok r) (sel : Nat → Bool) (g : Nat → Option K → Option K) :
+    Eff s (s1.writeSel r.view sel g) (fun _ _ => False) (fun _ => False) False ∧
+      ResultOK s (s1.writeSel r.view sel g) := by
+  have hr' := getObj_ok hr
+  have hfresh : s.store.next ≤ r.view.buf := by
+    have hl : s.objs.length ≤ lastId s1 := by unfold lastId; have := r1.1; omega
+    rcases e1.new _ r hl hr' with f | ⟨f, _⟩
+    · exact f
+    · exact f.elim
+  refine ⟨?_, r1.1, ?_⟩
+  · refine (Eff.trans hwf e1 (eff_writeSel e1.wf r.view sel g)).mono ?_ (fun _ _ h => h.elim id id)
+      (fun h => h.elim id id)
+    intro b i hb hw
+    rcases hw with f | ⟨⟨hm, _⟩, _⟩
+    · exact f
+    · omega
+  · intro oc hoc hcls
+    exact r1.2 oc hoc hcls
+
+/-! ### the operations -/
+
+section
+variable [Add K] [Sub K] [Mul K] [Div K] [Neg K] [NatCast K]
+
+/-- cells of buffers existing before the operation that the operation may write -/
+def foot (G : List Grid) (s : State K) : Op K → Nat → Nat → Prop
+  | .writeData h _, b, i => ∃ o : Obj, s.objs[h]? = some o ∧ o.validCell G b i
+  | .writeFull h _, b, i => ∃ o : Obj, s.objs[h]? = some o ∧ o.view.Mem b i
+  | .writeCell h p _, b, i => ∃ o : Obj, s.objs[h]? = some o ∧ o.view.Mem b i ∧ i = o.view.off + p
+  | .setGhosts h _, b, i => ∃ o : Obj, s.objs[h]? = some o ∧ o.view.Mem b i ∧
+      validSel G o (i - o.view.off) = false
+  | .inplace _ a _, b, i => ∃ o : Obj, s.objs[a]? = some o ∧ o.validCell G b i
+  | _, _, _ => False
+
+/-- objects existing before the operation that the operation may re-link (to a fresh buffer) -/
+def moved : Op K → Nat → Prop
+  | .mkColl hs cp _, i => cp = false ∧ i ∈ hs
+  | _, _ => False
+
+/-- operations whose result may be a view of existing memory -/
+def subviewing : Op K → Prop
+  | .component _ _ => True
+  | _ => False
+
+theorem eff_copyThenWrite {G : List Grid} {s s' : State K} (hwf : WF s) {src : Obj}
+    {dt : Option DType} {g : State K → Obj → Nat → Option K → Option K}
+    (h : copyThenWrite G s src dt g = .ok s') :
+    Eff s s' (fun _ _ => False) (fun _ => False) False ∧ ResultOK s s' := by
+  unfold copyThenWrite at h
+  split at h
+  · cases h
+  rename_i s1 hc
+  split at h
+  · cases h
+  rename_i r hr
+  cases h
+  obtain ⟨e1, r1, _⟩ := eff_copyAny hwf hc
+  exact eff_write_result hwf e1 r1 hr _ _
+
+theorem ResultOK.of_field {s : State K} (cells : List (Option K)) (dt : DType) (o : Obj)
+    (hc : o.cls ≠ .coll) : ResultOK s (s.allocObj cells dt o) := by
+  refine ⟨by simp [allocObj_length], ?_⟩
+  intro oc hoc hcls
+  have : lastId (s.allocObj cells dt o) = s.objs.length := by simp [lastId, allocObj_length]
+  rw [this, allocObj_new] at hoc
+  cases hoc
+  exact absurd hcls hc
+
+/-- nothing was created: the clause about the result is void -/
+def NoNew (s s' : State K) : Prop := s'.objs.length = s.objs.length
+
+/-- **master lemma**: the effect summary of every operation -/
+theorem step_spec (G : List Grid) {s s' : State K} (hwf : WF s) {op : Op K}
+    (h : step G s op = .ok s') :
+    Eff s s' (foot G s op) (moved op) (subviewing op) ∧ (NoNew s s' ∨ ResultOK s s') := by
+  cases op with
+  | mkField cls g dt cplx init =>
+    simp only [step, mkField] at h
+    split at h
+    · cases h
+    split at h
+    · cases h
+    rename_i gr _ hcls
+    have hc : cls ≠ .coll := by
+      intro e; subst e; simp at hcls
+    split at h <;> cases h <;>
+      exact ⟨(eff_allocObj hwf _ _ _).mono (fun _ _ _ f => f.elim) (fun _ _ f => f.elim)
+        (fun f => f.elim), Or.inr (ResultOK.of_field _ _ _ hc)⟩
+  | writeData hd vals =>
+    simp only [step] at h
+    split at h
+    · cases h
+    rename_i o ho
+    cases h
+    refine ⟨(eff_writeSel hwf _ _ _).mono ?_ (fun _ _ f => f.elim) id, Or.inl rfl⟩
+    intro b i _ hw
+    exact ⟨o, getObj_ok ho, hw.1, hw.2⟩
+  | writeFull hd vals =>
+    simp only [step] at h
+    split at h
+    · cases h
+    rename_i o ho
+    cases h
+    refine ⟨(eff_writeSel hwf _ _ _).mono ?_ (fun _ _ f => f.elim) id, Or.inl rfl⟩
+    intro b i _ hw
+    exact ⟨o, getObj_ok ho, hw.1⟩
+  | writeCell hd p v =>
+    simp only [step] at h
+    split at h
+    · cases h
+    rename_i o ho
+    cases h
+    refine ⟨(eff_writeSel hwf _ _ _).mono ?_ (fun _ _ f => f.elim) id, Or.inl rfl⟩
+    intro b i _ hw
+    refine ⟨o, getObj_ok ho, hw.1, ?_⟩
+    have h2 := hw.2
+    have h1 := hw.1.2.1
+    simp only [beq_iff_eq] at h2
+    omega
+  | setGhosts hd vals =>
+    simp only [step] at h
+    split at h
+    · cases h
+    rename_i o ho
+    cases h
+    refine ⟨(eff_writeSel hwf _ _ _).mono ?_ (fun _ _ f => f.elim) id, Or.inl rfl⟩
+    intro b i _ hw
+    refine ⟨o, getObj_ok ho, hw.1, ?_⟩
+    simpa using hw.2
+  | component hd c =>
+    simp only [step] at h
+    split at h
+    · cases h
+    rename_i o ho
+    split at h
+    · rename_i hcond
+      cases h
+      simp only [Bool.and_eq_true, decide_eq_true_eq] at hcond
+      have hsub : (compObj o c).view.Sub o.view := by
+        refine ⟨rfl, by simp [compObj], ?_⟩
+        have h1 : (c + 1) * (o.view.len / o.ncomp) ≤ o.ncomp * (o.view.len / o.ncomp) :=
+          Nat.mul_le_mul_right _ hcond.2
+        have h2 : o.ncomp * (o.view.len / o.ncomp) ≤ o.view.len := Nat.mul_div_le _ _
+        have h3 : (c + 1) * (o.view.len / o.ncomp) =
+            c * (o.view.len / o.ncomp) + o.view.len / o.ncomp := Nat.succ_mul _ _
+        simp only [compObj]
+        omega
+      refine ⟨(eff_pushObj hwf _ hd o (getObj_ok ho) hsub).mono (fun _ _ _ f => f.elim)
+        (fun _ _ f => f.elim) id, Or.inr ⟨by simp [State.pushObj], ?_⟩⟩
+      intro oc hoc hcls
+      have : lastId (s.pushObj (compObj o c)) = s.objs.length := by simp [lastId, State.pushObj]
+      rw [this] at hoc
+      simp [State.pushObj] at hoc
+      subst hoc
+      cases hcls
+    · cases h
+  | mkColl hs cp dt =>
+    simp only [step] at h
+    obtain ⟨e, r⟩ := eff_mkColl hwf h
+    exact ⟨e.mono (fun _ _ _ f => f.elim) (fun _ _ f => f) (fun f => f.elim), Or.inr r⟩
+  | slice c idx =>
+    simp only [step] at h
+    split at h
+    · cases h
+    split at h
+    · obtain ⟨e, r⟩ := eff_mkColl hwf h
+      exact ⟨e.mono (fun _ _ _ f => f.elim) (fun _ _ f => by simp at f) (fun f => f.elim), Or.inr r⟩
+    · cases h
+  | append c hs =>
+    simp only [step] at h
+    split at h
+    · cases h
+    · cases h
+    · split at h
+      · obtain ⟨e, r⟩ := eff_mkColl hwf h
+        exact ⟨e.mono (fun _ _ _ f => f.elim) (fun _ _ f => by simp at f) (fun f => f.elim),
+          Or.inr r⟩
+      · cases h
+  | copy hd dt =>
+    simp only [step] at h
+    split at h
+    · cases h
+    obtain ⟨e, r, _⟩ := eff_copyAny hwf h
+    exact ⟨e.mono (fun _ _ _ f => f.elim) (fun _ _ f => f.elim) (fun f => f.elim), Or.inr r⟩
+  | neg hd =>
+    simp only [step, negate] at h
+    split at h
+    · cases h
+    rename_i o ho
+    split at h
+    · cases h
+    split at h
+    · split at h
+      · cases h
+      · obtain ⟨e, r⟩ := eff_mapEach_link hwf _ _ h
+        exact ⟨e.mono (fun _ _ _ f => f.elim) (fun _ _ f => f.elim) (fun f => f.elim), Or.inr r⟩
+    · rename_i hcoll
+      cases h
+      have hc : o.cls ≠ .coll := by intro e; simp [e] at hcoll
+      exact ⟨(eff_allocObj hwf _ _ _).mono (fun _ _ _ f => f.elim) (fun _ _ f => f.elim)
+        (fun f => f.elim), Or.inr (ResultOK.of_field _ _ _ hc)⟩
+  | binop bop a b =>
+    simp only [step, binop] at h
+    split at h
+    · cases h
+    split at h
+    · cases h
+    split at h
+    · split at h
+      · cases h
+      obtain ⟨e, r⟩ := eff_copyThenWrite hwf h
+      exact ⟨e.mono (fun _ _ _ f => f.elim) (fun _ _ f => f.elim) (fun f => f.elim), Or.inr r⟩
+    · split at h
+      · cases h
+      split at h
+      · cases h
+      split at h
+      · cases h
+      split at h
+      · cases h
+      split at h
+      · cases h
+      obtain ⟨e, r⟩ := eff_copyThenWrite hwf h
+      exact ⟨e.mono (fun _ _ _ f => f.elim) (fun _ _ f => f.elim) (fun f => f.elim), Or.inr r⟩
+  | inplace bop a b =>
+    simp only [step, inplace] at h
+    split at h
+    · cases h
+    rename_i oa hoa
+    split at h
+    · cases h
+    have key : ∀ g, s' = s.writeSel oa.view (validSel G oa) g →
+        Eff s s' (foot G s (.inplace bop a b)) (moved (.inplace bop a b))
+          (subviewing (.inplace bop a b)) ∧ (NoNew s s' ∨ ResultOK s s') := by
+      intro g hs'
+      subst hs'
+      refine ⟨(eff_writeSel hwf _ _ _).mono ?_ (fun _ _ f => f.elim) id, Or.inl rfl⟩
+      intro b i _ hw
+      exact ⟨oa, getObj_ok hoa, hw.1, hw.2⟩
+    split at h
+    · split at h
+      · cases h
+      · cases h; exact key _ rfl
+    · split at h
+      · cases h
+      split at h
+      · cases h
+      split at h
+      · cases h
+      split at h
+      · cases h
+      split at h
+      · cases h
+      cases h; exact key _ rfl
+  | storeFrame hd =>
+    simp only [step] at h
+    split at h
+    · cases h
+    cases h
+    exact ⟨(eff_allocObj hwf _ _ _).mono (fun _ _ _ f => f.elim) (fun _ _ f => f.elim)
+      (fun f => f.elim), Or.inr (ResultOK.of_field _ _ _ (by simp))⟩
+  | loadFrame t f =>
+    simp only [step] at h
+    split at h
+    · cases h
+    · cases h
+    · split at h
+      · cases h
+      obtain ⟨e, r⟩ := eff_copyThenWrite hwf h
+      exact ⟨e.mono (fun _ _ _ f => f.elim) (fun _ _ f => f.elim) (fun f => f.elim), Or.inr r⟩
+
+end
+
 end PdeVerif.Heap
